@@ -9,7 +9,7 @@
 From Coq Require Import Init.Byte ZArith List Bool.
 Require Import Ojg.Base.Bytes Ojg.Base.Jv Ojg.Json.Number Ojg.Json.NumberFacts.
 Require Import Ojg.Json.Machine Ojg.Json.Ref Ojg.Json.RefParse Ojg.Json.Sweep Ojg.Json.DataInv Ojg.Json.Frontends.
-Require Import Ojg.Json.Sweep_parser Ojg.Json.Sweep_gen Ojg.Json.DSweeps Ojg.Json.ValueSim Ojg.Json.ValueSimSweeps.
+Require Import Ojg.Json.Sweep_parser Ojg.Json.Sweep_gen Ojg.Json.DSweeps Ojg.Json.ValueSim Ojg.Json.ValueSimSweeps Ojg.Json.IntLit.
 Import ListNotations.
 Open Scope Z_scope.
 
@@ -70,3 +70,19 @@ Proof. vm_compute. split; reflexivity. Qed.
 
 Print Assumptions C02_documents_parser.
 Print Assumptions C02_documents_gen_multi.
+
+(* integer literals, through the machine's own path (scan-ahead loop of the first buffer for
+   non-negative literals, digit-at-a-time for negative ones): the leaf that C02_documents assigns
+   to a plain integer literal is that integer *)
+Theorem C02_int_literal_plain : forall d1 ds,
+  is_19 d1 = true -> all_digits ds -> digits_val (d1 :: ds) < 9223372036854775800 ->
+  tr fe_parser (JBig (d1 :: ds)) = JInt (digits_val (d1 :: ds)).
+Proof. exact int_literal_plain. Qed.
+Theorem C02_int_literal_zero : tr fe_parser (JBig [x30]) = JInt 0.
+Proof. exact int_literal_zero. Qed.
+Theorem C02_int_literal_neg : forall d1 ds,
+  is_19 d1 = true -> all_digits ds -> digits_val (d1 :: ds) <= max_int64 ->
+  tr fe_parser (JBig (x2d :: d1 :: ds)) = JInt (- digits_val (d1 :: ds)).
+Proof. exact int_literal_neg. Qed.
+Print Assumptions C02_int_literal_plain.
+Print Assumptions C02_int_literal_neg.
